@@ -77,7 +77,7 @@ def coq_sources():
     out = []
     for root, _, files in os.walk(os.path.join(COQ, "theories")):
         for f in files:
-            if f.endswith(".v"):
+            if f.endswith(".v") and not f.startswith("Tmp_"):
                 out.append(os.path.relpath(os.path.join(root, f), COQ))
     return sorted(out)
 
@@ -102,8 +102,12 @@ def coq_build(targets, timeout=1500):
         gen_msgs = run_generators()
         srcs = coq_sources()
         listing = "\n".join(srcs) + "\n"
-        changed = write_if_changed(os.path.join(CACHE, "coq_sources.txt"), listing)
+        changed = write_if_changed(os.path.join(CACHE, "cq_sources.txt"), listing)
         if changed or not os.path.exists(os.path.join(COQ, "Makefile")):
+            try:
+                os.remove(os.path.join(COQ, ".Makefile.d"))
+            except FileNotFoundError:
+                pass
             rc, out = sh(["coq_makefile", "-f", "_CoqProject", "-o", "Makefile"] + srcs, cwd=COQ, timeout=120)
             if rc != 0:
                 return False, "coq_makefile failed:\n" + out
